@@ -116,7 +116,20 @@ class Grader:
                 self.issues.append(("powf", "a quantity of grade %s is raised to a non-constant power: %s" % (g, a[:120])))
                 return BAD
             return (g[0] * e, g[1] * e)
-        if base in ("max", "min", "phi", "clamp", "widen"):
+        if base in ("max", "min", "clamp"):
+            gs = [ev(x) for x in args]
+            # ordering a state-scaled quantity against a non-zero constant (an absolute floor / ceiling) is not homogeneous:
+            # scaling the state by 2^-k pushes the quantity below the floor. (A replacement of an exact zero, which `phi`
+            # models, is a different thing: zero is a fixed point of the scaling.)
+            real = [g for g in gs if g not in (POLY, BAD, UNKNOWN)]
+            if real and any(g[1] != 0 for g in real):
+                for x, g in zip(args, gs):
+                    if g is POLY and not (x.is_const() and x.const_value() == 0):
+                        self.issues.append((base, "a quantity of state-scale degree %s is ordered against the absolute constant %r (%s): %s" % (
+                            [g_[1] for g_ in real if g_[1] != 0][0], x, base, a[:120])))
+                        return BAD
+            return self.combine(gs, base, Poly.atom(a))
+        if base in ("phi", "widen"):
             return self.combine([ev(x) for x in args], base, Poly.atom(a))
         if base == "signum":
             g = ev(args[0])
